@@ -1090,6 +1090,11 @@ fn gram(c: &mut Case) {
     c.ratio("gram.psd", (-lam[n - 1]).max(0.0), 1e-10 * tr, &sg, || format!("smallest eigenvalue {:e}, trace {:e}", lam[n - 1], tr));
 }
 
+/// parameter builders keep every configured value whatever the order of the `with_*` steps
+fn builders_fam(c: &mut Case) {
+    scverif::builders::case(c, "C10")
+}
+
 fn main() {
     let f4 = factorial(4);
     let f5 = factorial(5);
@@ -1107,6 +1112,7 @@ fn main() {
             "kernel closed forms: |K - ref| <= 1e-12 * first-order error scale of the closed form (Σ|a_i b_i| for the inner product propagated through the outer function)",
         ],
         families: vec![
+            Family::new("builders", 300, 3000, builders_fam),
             Family::new("svc", 8000, 300000, svc),
             Family::new("svc_unforced", 1000, 30000, svc_unforced),
             Family::new("svc_enum_n4_e1", f4 * f4, f4 * f4, svc_enum_n4_e1).exhaustive(true, true),
